@@ -12,7 +12,7 @@ from ..report import Report
 from . import _stdio
 
 
-def check(P: Project, R: Report) -> None:
+def _check_body(P: Project, R: Report) -> None:
     R.rule("R1", "each non-exceptional iteration of the writer loop performs exactly one stdin.send(payload) with payload = f\"{s}\\n\" encoded as UTF-8 (one trailing LF constant, nothing else)")
     R.rule("R2", "every value that reaches `s` is line-safe: the result of a compact serialiser (fast_json.dumps / model_dump_json without indent) or a string on a path that excluded raw CR/LF (or re-encoded it)")
     R.rule("R3", "model serialisation paths pass exclude_none=True (absent optional members are omitted, not sent as null); under the no-Pydantic backend that flag reaches only declared members — the nested serialiser keeps the elements of free-form dict/list values one to one")
@@ -325,6 +325,9 @@ def check(P: Project, R: Report) -> None:
          sample=f"R5 no lasting clone of self.{out_send} in {n_fn} functions")
 
 
+_check_main = None
+
+
 def _excludes_text(lits, msg: str) -> bool:
     """some literal of the path says `not isinstance(<msg>, str)` — `str` alone or among the classes of a tuple"""
     for l in lits:
@@ -382,3 +385,20 @@ def _frame_parts(pn):
 def _true(node) -> bool:
     return isinstance(node, ast.Constant) and node.value is True
 
+
+
+def _lift_codec(P: Project, R: Report) -> None:
+    """A plain-dict message is written by `json.dumps` of the package's codec: where the fast backend refuses an object the
+    standard one accepts (integers beyond 64 bits, deep nesting, non-str keys), the standard arm must still be tried — a
+    refusal re-raised there is caught by the writer's per-message handler and the message is dropped."""
+    from ..lift import lift
+
+    lift(P, R, "C17", {"R1", "R4"}, "R7",
+         "every serialisable message is serialised: in the codec's dumps the standard-library arm is reached whenever the fast backend raises (the sibling-arm obligations of C17-R1/R4, read here for 'every message accepted on the write stream reaches the child')",
+         "codec: ", min_n=2, suffix=" — a message the fast backend refuses and the standard one would have written is dropped by the writer's error arm",
+         select=lambda o: "dumps" in o.key)
+
+
+def check(P: Project, R: Report) -> None:
+    _lift_codec(P, R)
+    _check_body(P, R)
